@@ -268,6 +268,11 @@ def canon(v):
     return v
 
 
+def strict_key(v):
+    """type-aware comparison key: Python's == conflates True / 1 / 1.0, the properties do not"""
+    return json.dumps(wire.jsonable(canon(v)), sort_keys=True, default=str)
+
+
 def stable_hash(x):
     return hashlib.blake2b(json.dumps(wire.jsonable(x), sort_keys=True, default=str).encode(), digest_size=8).hexdigest()
 
@@ -360,7 +365,7 @@ class Surface:
             return False
         if i[0] == "EXC":
             return i[1] == m[1]
-        return canon(i[1]) == canon(m[1])
+        return strict_key(i[1]) == strict_key(m[1])
 
     def tags(self, x):
         return set()
